@@ -59,7 +59,8 @@ let show_content (s : string) : string =
   if String.length s <= 48 then digest s ^ ":" ^ (if s = "" then "-" else hex_of_string s) else digest s
 
 (* generated contents: G:<seed>:<len> *)
-let gen_bytes seed len = String.init len (fun i -> Char.chr ((seed * 131 + i * 31 + (i / 251) * 17) land 255))
+let gen_bytes_off seed len off = String.init len (fun j -> let i = j + off in Char.chr ((seed * 131 + i * 31 + (i / 251) * 17) land 255))
+let gen_bytes seed len = gen_bytes_off seed len 0
 let parse_chunk (c : string) : string =
   if String.length c > 2 && c.[0] = 'S' && c.[1] = ':' then
     (match String.split_on_char ':' c with
@@ -68,6 +69,7 @@ let parse_chunk (c : string) : string =
   else if String.length c > 2 && c.[0] = 'G' && c.[1] = ':' then
     (match String.split_on_char ':' c with
      | [_; s; l] -> gen_bytes (int_of_string s) (int_of_string l)
+     | [_; s; l; o] -> gen_bytes_off (int_of_string s) (int_of_string l) (int_of_string o)
      | _ -> failwith "bad G chunk")
   else string_of_hex c
 let () = gen_bytes_fwd_ref := parse_chunk
@@ -253,6 +255,7 @@ let apply_kv (c : config) (kv : string) : config =
   | _ -> failwith ("bad cfg item " ^ kv)
 
 type line =
+  | LSetSettings of n * bool * n
   | LOp of string * op           (* printable name, model op *)
   | LObs
   | LCfg of string list
@@ -264,6 +267,7 @@ let parse_line (cfg : config ref) (l : string) : line option =
   | t :: _ when t.[0] = '#' -> None
   | "cfg" :: kvs -> Some (LCfg kvs)
   | "fault" :: _ -> None
+  | ["setsettings"; v; p; nn] -> Some (LSetSettings (n_of_decimal v, p = "1", n_of_decimal nn))
   | ["put"; k] -> Some (LOp (l, OpPut (key_of k, [])))
   | ["put"; k; cs] -> Some (LOp (l, OpPut (key_of k, parse_chunks cs)))
   | ["abort"; k] -> Some (LOp (l, OpAbort (key_of k, [])))
@@ -333,6 +337,10 @@ let run_lines (out : Buffer.t) (lines : string list) (fs0 : fs) (fault : int opt
     | None -> ()
     | Some (LCfg kvs) -> cfg := List.fold_left apply_kv !cfg kvs
     | Some LObs -> obs_model out !hd !w since
+    | Some (LSetSettings (v, p, nn)) ->
+      let d = enc_settings v p nn in
+      let fs' = { !w.wfs with files = set_path !w.wfs.files PSettings { fdata = d; fsynced = length d } } in
+      w := { !w with wfs = fs' }
     | Some (LOp (name, o)) ->
       let ((r, hd'), w') = step hash_fn !hd o !w in
       hd := hd'; w := w';
